@@ -58,6 +58,8 @@ def model (op : String) (a : List Bytes) : Option String :=
   | "tmpl.prefix.url", [p] => some (okErr (TmplUrl.validateURLPrefix p))
   | "tmpl.prefix.tru", [p] => some (okErr (TmplUrl.validateTrustedResourceURLPrefix p))
   | "tmpl.prefix.decode", [p] => some (errRes (TmplUrl.decodeURLPrefix p))
+  | "tmpl.urlrange", [_e, _a, _p, _m, _x, _y, hist] =>
+    some (((Ops.Tmpl.runLines (Ops.Tmpl.historyLines hist)).getLast?.map (·.1)).getD "bad")
   | "tmpl.link", [_rel, _p, _w, hist] =>
     some (((Ops.Tmpl.runLines (Ops.Tmpl.historyLines hist)).getLast?.map (·.1)).getD "bad")
   | "tmpl.urlattr", [e, atr, p, w] => some (urlattr e atr p w)
@@ -103,6 +105,7 @@ def oracle (op : String) (a : List Bytes) (real : List String) : Option String :
   | "tmpl.link", [rel, p, w, _hist] => some (Oracle.C14.linkattr rel p w real)
   | "tmpl.urlattr", [e, atr, p, w] => some (Oracle.C14.urlattr e atr p w real)
   | "tmpl.urlattr2", [e, atr, p, a, mid, b] => some (Oracle.C14.urlattr2 e atr p a mid b real)
+  | "tmpl.urlrange", [e, atr, p, mid, x, y, _hist] => some (Oracle.C14.urlrange e atr p mid x y real)
   | _, _ => none
 
 end SafeHtml.Ops.C14
